@@ -43,7 +43,16 @@ LeafTable ==
   [ int    |-> L(("type" :> <<"integer">>) @@ ("minimum" :> JNum(8)) @@ ("maximum" :> JNum(16)),
                  <<JNum(4), JNum(8), JNum(16), JNum(20), JNum(10), SA, JBool(TRUE), JNull>>, JNum(12)),
     str    |-> L(("type" :> <<"string">>) @@ ("minLength" :> 2) @@ ("pattern" :> "p_a"),
-                 <<SA, SAB, SBA, JStr(<<"a", "b", "b">>), JNum(12), JNull>>, SAB),
+                 <<SA, SAB, SBA, SB, JStr(<<"a", "b", "b">>), JNum(12), JNull>>, SAB),
+    \* differ from str / int / enums / enumn only in the constraint values (same Go type): same-named types must not be merged
+    str2   |-> L(("type" :> <<"string">>) @@ ("minLength" :> 1) @@ ("pattern" :> "p_b"),
+                 <<SA, SAB, SBA, SB, JStr(<<"a", "b", "b">>), JNum(12), JNull>>, SAB),
+    int2   |-> L(("type" :> <<"integer">>) @@ ("minimum" :> JNum(4)) @@ ("maximum" :> JNum(12)),
+                 <<JNum(4), JNum(8), JNum(16), JNum(20), JNum(10), SA, JBool(TRUE), JNull>>, JNum(12)),
+    enums2 |-> L([type |-> <<"string">>, enum |-> <<SA, SB>>], <<SA, SAB, SB, JNum(4)>>, SA),
+    \* number enums that are pairwise equal after truncation to an integer
+    enumn  |-> L([type |-> <<"number">>, enum |-> <<JNum(2), JNum(4), JNum(6)>>], <<JNum(2), JNum(4), JNum(6), JNum(1), JNum(7), JNum(0), SA>>, JNum(4)),
+    enumn2 |-> L([type |-> <<"number">>, enum |-> <<JNum(1), JNum(4), JNum(7)>>], <<JNum(2), JNum(4), JNum(6), JNum(1), JNum(7), JNum(0), SA>>, JNum(4)),
     \* a named float type with multipleOf (did not compile before fix 1069fc9): leaf nummult below
     num    |-> L(("type" :> <<"number">>) @@ ("exclusiveMaximum" :> [k |-> "n", h |-> JNum(12)]) @@ ("minimum" :> JNum(-6)),
                  <<JNum(12), JNum(10), JNum(11), JNum(-6), JNum(-7), SA>>, JNum(10)),
@@ -97,18 +106,23 @@ LeafTable ==
 Leaves == DOMAIN LeafTable
 \* the other leaf of the two-target layouts
 AltOf(k) == CASE k = "bool" -> "int" [] k = "objdef" -> "objdef2" [] k = "objdef2" -> "objdef"
-              [] k = "oreqd" -> "oreq" [] k = "oreq" -> "oreqd" [] k = "arr" -> "arr2" [] k = "arr2" -> "arr" [] OTHER -> "bool"
+              [] k = "oreqd" -> "oreq" [] k = "oreq" -> "oreqd" [] k = "arr" -> "arr2" [] k = "arr2" -> "arr"
+              [] k = "str" -> "str2" [] k = "str2" -> "str" [] k = "int" -> "int2" [] k = "int2" -> "int"
+              [] k = "enums" -> "enums2" [] k = "enums2" -> "enums" [] k = "enumn" -> "enumn2" [] k = "enumn2" -> "enumn" [] OTHER -> "bool"
+\* leaves that exist for the two-target layouts only
+AltOnly == {"str2", "int2", "enums2", "enumn", "enumn2"}
 
 Contexts == {"req", "opt", "item", "nested", "addl", "req2", "two", "twoall", "collide"}
 GenericForms == {"inline", "defs", "definitions", "chain", "file", "filedef", "subdir", "updir", "yaml", "noext", "dotslash"}
 \* a document that is the target of a file reference needs a typed root ("schema has no root" otherwise; the
 \* tool turns an untyped root into an object): the untyped enum cannot be the root of a file
 RootForms == {"file", "dotslash", "subdir", "updir", "yaml", "noext", "filechain", "dotdot", "samefile"}
-FormsOf(c, k) == (CASE c = "nested" -> GenericForms \cup {"filechain"}
+FormsOf(c, k) == IF k \in AltOnly /\ c \notin {"two", "twoall", "collide"} THEN {} ELSE
+                 (CASE c = "nested" -> GenericForms \cup {"filechain"}
                     [] c = "req2"   -> GenericForms \cup {"dotdot"}
                     [] c = "two"    -> {"inline", "samefile", "samedef", "samedefinline"}
                     [] c = "twoall" -> {"inline", "samebranch"}
-                    [] c = "collide" -> {"inline", "namecollide"}
+                    [] c = "collide" -> {"inline", "namecollide", "leafcollide"}
                     [] OTHER        -> GenericForms) \ (IF k = "enumu" THEN RootForms ELSE {})
 
 (* ---------- references ---------- *)
@@ -174,6 +188,9 @@ Unit(c, k, f) ==
     \* (type PQ) and a definition named PQ
     [] f = "namecollide" -> plain(RootOf(c, RDefs("P"), RDefs("PQ")),
                                   <<[k |-> "P", s |-> Obj(<<[k |-> "q", s |-> Obj(<<[k |-> "c", s |-> lf]>>)]>>)], [k |-> "PQ", s |-> Obj(<<[k |-> "c", s |-> alt]>>)]>>, <<>>, <<>>)
+    \* ONE document in which the two LEAVES are definitions whose names map to one Go type name (Nn and nn)
+    [] f = "leafcollide" -> plain(RootOf(c, Obj(<<[k |-> "q", s |-> Obj(<<[k |-> "c", s |-> RDefs("Nn")]>>)]>>), Obj(<<[k |-> "c", s |-> RDefs("nn")]>>)),
+                                  <<[k |-> "Nn", s |-> lf], [k |-> "nn", s |-> alt]>>, <<>>, <<>>)
     \* two documents whose allOf lists hold the textually identical branch "$ref": "#/$defs/Base" with different targets
     [] f = "samebranch"  -> plain(RootOf(c, RPath(<<"d1.json">>, "Wa", "Wa"), RPath(<<"d2.json">>, "Wb", "Wb")), <<>>, <<>>,
                                   <<File(<<"d1.json">>, "F1", Obj(<<>>), <<[k |-> "Base1", s |-> Obj(<<[k |-> "c", s |-> lf]>>)], [k |-> "Wa", s |-> AllOfC(RDefs("Base1"))]>>, FALSE),
